@@ -85,12 +85,14 @@ def _config():
 
 
 def _enc(a):
+    """outputs in units of 1/S, saturated at +-(2^30 - 1) (= |out| >= 2) so that differences cannot overflow TLC's 32-bit
+    integers; a non-finite output is encoded as the negative bound and therefore fails the range / agreement clauses"""
     import numpy as np
 
+    lim = 2**30 - 1
     a = np.asarray(a, dtype=np.float64).ravel() * S
-    bad = ~np.isfinite(a) | (np.abs(a) >= 2**31 - 2)
-    r = np.where(bad, -2000000000, np.rint(np.where(bad, 0.0, a)))  # a non-finite / huge output fails the range clause
-    return [int(v) for v in r]
+    a = np.where(np.isfinite(a), a, -float(lim))
+    return [int(v) for v in np.rint(np.clip(a, -lim, lim))]
 
 
 def observe(case):
